@@ -196,6 +196,7 @@ func GenHistoryFrom(t *rapid.T, cfg WorldCfg, setup []TxSpec, maxTx, maxOps int,
 		tx.Batch = chance(t, l+"_batch", 4)
 		tx.Nested = chance(t, l+"_nested", 5)
 		tx.LastInPreCommit = chance(t, l+"_lastInPreCommit", 8)
+		tx.NilCtx = chance(t, l+"_nilCtx", 15)
 		if allowSystem {
 			tx.System = chance(t, l+"_system", 45)
 			tx.SystemOutside = tx.System && chance(t, l+"_systemOutside", 40)
